@@ -107,6 +107,8 @@ package cache
 //@   defines bugOps >= old(bugOps) && (err == nil ==> bugOps == old(bugOps) + 1)
 //@   ensures [sub-cache-notified] err == nil ==> entityNotifies == old(entityNotifies) + 1
 //@   ensures [lock-balanced] forall m *sync.RWMutex :: { sync.rwheld[m] } sync.rwheld[m] == old(sync.rwheld[m])
+// lastEditMetadataLen: the number of metadata entries handed to the last comment edit (ghost record)
+//@ ghost var lastEditMetadataLen int
 //@ func (*BugCache).EditCreateCommentRaw
 //@ func (*BugCache).EditCommentRaw
 //@   props C18 C11
@@ -114,7 +116,8 @@ package cache
 //@   opt post_unguarded
 //@   requires [authored-by-request-user] requestUser != nil ==> typeof(author) == type[*IdentityCache] && author.(*IdentityCache) == requestUser
 //@   requires [not-held@locks] c != nil && sync.rwheld[&c.mu] == 0
-//@   modifies bugOps, repoWrites, entityNotifies, lastMessage
+//@   modifies bugOps, repoWrites, entityNotifies, lastMessage, lastEditMetadataLen
+//@   defines [metadata-recorded] lastEditMetadataLen == len(metadata)
 //@   opt trusted_frame
 //@   stable entityNotifies
 //@   defines [text-recorded] lastMessage == message
@@ -249,7 +252,7 @@ package cache
 // (a pull replaces the loaded instance of an updated entity by the merged one: exempt from the never-replace
 // rule of the table of loaded entities - pulls are not part of the concurrent mix of the web UI)
 //@ func (*SubCache).MergeAll$1
-//@   props C07 C11 C02 C18
+//@   props C07 C11 C02 C18 C01
 //@   stable excerptFrom, cachedFrom
 //@   opt locks
 //@   opt may_replace=cached
@@ -849,8 +852,10 @@ package cache
 // with): every entity read gets its excerpt - computed from the very wrapper that is kept in memory -, and that
 // wrapper wraps the entity read.
 //@ func (*SubCache).Build$1
-//@   props C11
+//@   props C11 C14
 //@   stable excerptFrom, cachedFrom
+// (C14: what was removed stays gone across a rebuild) the rebuild starts from an empty excerpt table
+//@   assert at `allEntities := sc.actions.ReadAllWithResolver(` [rebuild-starts-from-nothing] len(sc.excerpts) == 0
 //@   assert at `indexData := sc.makeIndexData(cached)` [rebuilt-entity-has-its-excerpt-and-instance] (e.Entity.Id() in sc.excerpts) && excerptFrom[sc.excerpts[e.Entity.Id()]] == cached && (e.Entity.Id() in sc.cached) && sc.cached[e.Entity.Id()] == cached && cachedFrom[cached] == e.Entity
 
 // Exchanging with a remote through the cache (C01, C02: replicas converge only if everything is exchanged): a fetch
